@@ -380,6 +380,22 @@ pub fn gen_pair(r: &mut Rng, g: &PairGen) -> Vec<Tree> {
     ops.push(op_newconn(1, budget_b, &b_send, &a_send));
     ops.push(op_pair(Ep::Conn(0), Ep::Conn(1)));
     let mut pl = Payloads::new();
+    if r.chance(1, 8) {
+        gen_warp(r, &mut ops);
+        if r.chance(1, 2) {
+            // many tiny messages in one tick: the per message overhead (id and length varints) dominates the packet
+            if let Some(c) = sides[0].send.iter().find(|c| c.ty != 0).cloned() {
+                let len = r.range(0, 8) as usize;
+                for _ in 0..r.range(120, 260) {
+                    let m = pl.make(r, len);
+                    ops.push(op_send(sides[0].ep, c.id, &m));
+                }
+                ops.push(op_flush(sides[0].ep));
+                sides[0].nout += 3;
+                ops.push(op_status(sides[0].ep));
+            }
+        }
+    }
     // a flush produces an unknown number of packets: track an estimate and let unresolved deliveries be skipped
     for _ in 0..g.steps {
         let s = r.below(2) as usize;
@@ -618,6 +634,18 @@ pub fn gen_server(r: &mut Rng, hostile: bool, steps: usize) -> Vec<Tree> {
     ops
 }
 
+/// Both fresh endpoints are moved to a later point of a long session: packet sequences and message ids sit at or
+/// next to a varint width boundary (every header grows there), the two sides consistently.
+fn gen_warp(r: &mut Rng, ops: &mut Vec<Tree>) {
+    let near = |r: &mut Rng| -> u64 {
+        let b = *r.pick(&[64u64, 16384, 1 << 30, 1 << 40, 1 << 61]);
+        b - r.below(12).min(b) + r.below(4)
+    };
+    let (sa, sb, id) = (near(r), near(r), near(r));
+    ops.push(l(vec![n(14u8), ep_tree(Ep::Conn(0)), n(sa), n(id)]));
+    ops.push(l(vec![n(14u8), ep_tree(Ep::Conn(1)), n(sb), n(id)]));
+}
+
 /// r-pair, slice stress: sliced reliable messages, a resend interval that elapses between flushes, so
 /// that every slice travels in several packets; the network delivers a subset with duplicates and the
 /// acknowledgements come back late, doubled or not at all; then it heals and everything must arrive.
@@ -636,6 +664,9 @@ pub fn gen_slice_stress(r: &mut Rng) -> Vec<Tree> {
     ops.push(op_newconn(0, budget, &cfg, &cfg));
     ops.push(op_newconn(1, budget, &cfg, &cfg));
     ops.push(op_pair(a, bb));
+    if r.chance(1, 5) {
+        gen_warp(r, &mut ops);
+    }
     let mut pl = Payloads::new();
     let rounds = r.range(2, 5);
     for _ in 0..rounds {
